@@ -673,6 +673,12 @@ def fam_resubscribe(g, prefix, n_random):
             g.tag = 0
             p = g.combine_named(c, g.cold(evs), [g.cold(g.script(3)), g.cold(g.script(2))])
             out.append(case("%s-%d" % (prefix, i), [["def", "x", p]] + [["sub", ["ref", "x"], NOREACT]] * 3)); i += 1
+        # every source delivers items and completes: whatever a subscription left behind in the operator (latest values,
+        # queues, flags, counters) would show in the next one
+        for others in ([[n_(10), C_]], [[n_(10), C_], [n_(20), n_(30), C_]], [[n_(10), n_(11), n_(12), C_]]):
+            g.tag = 0
+            p = g.combine_named(c, g.cold([n_(1), n_(2), C_]), [g.cold(o) for o in others])
+            out.append(case("%s-%d" % (prefix, i), [["def", "x", p]] + [["sub", ["ref", "x"], NOREACT]] * 2)); i += 1
     for evs in ([n_(1), e_(5)], [e_(5)], [n_(1), n_(2), e_(6)]):
         for b in ("1", "2", "3", "4"):
             for mk in (lambda s: ["retry", b, s], lambda s: ["retry_when", ["lt", "6"], ["take", b, s]],
